@@ -80,6 +80,17 @@ CHECKS["C13"] = dict(
     technique="TLA+ model checking (TLC) + behaviour replay + TLC trace validation",
     design="6/C13")
 
+CHECKS["C04"] = dict(
+    level="model_checking",
+    text="TLC proves, for every geometry (35/40/80 tracks x 10/16/18 sectors, one/two sides, interleaved or not) and every sector "
+         "including one past the end, that the FileView (skip, take, leave, total) arithmetic equals the documented offset, never "
+         "lands on another side and fails beyond the end, and that the MMB status rule equals doc/mmb.5; containers stamped with their "
+         "own file positions are read back through dump-sector (boundary sectors in quick, complete sweeps in thorough, six MMB slots up "
+         "to 510, all 256 status bytes) and TraceContainers.tla judges every observation.",
+    note="16-sector geometries and side 1 of a two-sided .ssd/.sdd are unreachable through the geometry probe and are covered at spec level only.",
+    technique="TLA+ model checking (TLC) + behaviour replay + TLC trace validation",
+    design="6/C04")
+
 PENDING_REASON = "check not built yet in this session (work in progress; design in DESIGN.md section 6)"
 
 
